@@ -110,6 +110,29 @@ func ceremony(ctx context.Context, c *kernel.Ctx, cer int, net *simnet.Net) {
 		sloppyVal = verifrt.Intn("cfg", vals)
 		sloppyKind = verifrt.Intn("cfg", 3)
 	}
+	// A slow member (a quarter of the ceremonies): everything it sends takes up to slowMax (seconds, i.e.
+	// a sizeable fraction of a Pedersen phase; FROST has no phases) - late but never lost. Nodes then run
+	// the rounds / phases visibly out of step. A ceremony may time out; if it completes it must be consistent.
+	slow, slowMax := -1, 0
+	var slowID peer.ID
+	// Pedersen is a synchronous (time-phased) protocol: phase 10 s. Its "slow but timely" fault is structured
+	// so that the unchanged protocol's premise holds by construction - every bundle arrives well inside the
+	// receiver's phase: all validator-public-key-share messages (the exchange between two validators' runs)
+	// take exDelay..exDelay+300 ms (<= 6 s, the same for every node, so the nodes stay in step), and every
+	// deal / response / justification bundle takes up to bundleMax (<= 6 s). Skew between nodes stays below
+	// ~1.5 s (start offsets + jitter), skew + latency < 8 s < phase.
+	exDelay, bundleMax := 0, 0
+	if verifrt.Intn("cfg", 4) == 3 {
+		if algo == "pedersen" {
+			exDelay = []int{500, 2500, 4500, 6000}[verifrt.Intn("cfg", 4)]
+			bundleMax = []int{500, 3000, 5000, 6000}[verifrt.Intn("cfg", 4)]
+			verifrt.Fault("slow-but-timely-links")
+		} else {
+			slow = verifrt.Intn("cfg", n)
+			slowMax = []int{1500, 4000, 7000, 9500}[verifrt.Intn("cfg", 4)]
+			verifrt.Fault("slow-member")
+		}
+	}
 	maxDelay := 1 + verifrt.Intn("cfg", 200)
 	dupPct := []int{0, 10}[verifrt.Intn("cfg", 2)]
 	c.Set(fmt.Sprintf("ceremony%d", cer), fmt.Sprintf("%s n=%d t=%d validators=%d maxDelayMs=%d dup%%=%d", algo, n, t, vals, maxDelay, dupPct))
@@ -117,6 +140,17 @@ func ceremony(ctx context.Context, c *kernel.Ctx, cer int, net *simnet.Net) {
 
 	net.Fate = func(e *simnet.Envelope) simnet.Fate {
 		f := simnet.Fate{Delay: time.Duration(verifrt.Intn("n", maxDelay)) * time.Millisecond}
+		if slow >= 0 && e.From == slowID {
+			f.Delay = time.Duration(verifrt.Intn("n", slowMax)) * time.Millisecond
+		}
+		if bundleMax > 0 && !e.Response {
+			switch string(e.Proto) {
+			case "/charon/dkg/pedersen/1.0.0/val_pubkey_share":
+				f.Delay = time.Duration(exDelay+verifrt.Intn("n", 300)) * time.Millisecond
+			case "/charon/dkg/pedersen/1.0.0/deal_bundle", "/charon/dkg/pedersen/1.0.0/resp_bundle", "/charon/dkg/pedersen/1.0.0/just_bundle":
+				f.Delay = time.Duration(verifrt.Intn("n", bundleMax)) * time.Millisecond
+			}
+		}
 		if !e.Response && dupPct > 0 && verifrt.Intn("n", 100) >= 100-dupPct {
 			f.Duplicate = true
 			f.DupDelay = time.Duration(verifrt.Intn("n", 3*maxDelay)) * time.Millisecond
@@ -142,6 +176,9 @@ func ceremony(ctx context.Context, c *kernel.Ctx, cer int, net *simnet.Net) {
 		}
 		ids = append(ids, id)
 		peers[id] = cluster.NodeIdx{PeerIdx: i, ShareIdx: i + 1}
+		if i == slow {
+			slowID = id
+		}
 	}
 	if sloppy >= 0 {
 		net.Tap = func(e *simnet.Envelope) {
@@ -248,6 +285,14 @@ func ceremony(ctx context.Context, c *kernel.Ctx, cer int, net *simnet.Net) {
 				verifrt.Probe("ceremony-aborted-with-sloppy-peer")
 				return
 			}
+			if slow >= 0 {
+				verifrt.Probe("ceremony-aborted-with-slow-member:" + algo)
+				return
+			}
+			if bundleMax > 0 && stragglers == 0 {
+				c.Violate("C11", "ceremony-failed", "timely-pedersen-ceremony-returned-error", "pedersen n=%d t=%d validators=%d with slow but timely links (exchange %d ms, bundles <= %d ms, phase 10 s): node %d returned %v", n, t, vals, exDelay, bundleMax, i, err)
+				return
+			}
 			if stragglers > 0 {
 				// messages of an earlier ceremony reached this one: refusing to complete is a legitimate
 				// outcome (the statement is about successful ceremonies); only a ceremony that nothing
@@ -265,6 +310,12 @@ func ceremony(ctx context.Context, c *kernel.Ctx, cer int, net *simnet.Net) {
 	}
 	if sloppy >= 0 {
 		verifrt.Probe("ceremony-completed-with-sloppy-peer")
+	}
+	if slow >= 0 {
+		verifrt.Probe("ceremony-completed-with-slow-member:" + algo)
+	}
+	if bundleMax > 0 {
+		verifrt.Probe("ceremony-completed-with-slow-but-timely-links")
 	}
 	checkShares(c, n, t, vals, results)
 }
